@@ -411,6 +411,14 @@ func (ai *AI) checkDeref(fn *ssa.Function, p ssa.Value, pos token.Pos, s *aiStat
 	if a == nil || a.K != 'p' || !a.Taint {
 		return
 	}
+	// only a pointer to a protobuf message can be "a request sub-message that may be absent": rows, builders and
+	// other values computed from request strings are not (their nil-ness is the callee's contract, not the client's)
+	if !isProtoMsgPtr(p.Type()) {
+		if os.Getenv("MB_DEBUG_AI") != "" && a.Nil != tNo {
+			fmt.Fprintf(os.Stderr, "deref of non-proto tainted %s : %s\n", p.Name(), p.Type())
+		}
+		return
+	}
 	if a.Nil != tNo {
 		ai.report("nilderef", pos, fn, "a request sub-message that may be absent ("+a.Loc+") is dereferenced without a nil check")
 		// continue on the non-nil assumption so that one finding does not hide the next
@@ -891,6 +899,30 @@ func (ai *AI) inline(cal *ssa.Function, call *ssa.Call, args []*AV, s *aiState) 
 	}
 	out.Loc = ""
 	return out
+}
+
+func isProtoMsgPtr(t types.Type) bool {
+	pt, ok := t.Underlying().(*types.Pointer)
+	if !ok {
+		return false
+	}
+	el := pt.Elem()
+	if al, isAlias := el.(*types.Alias); isAlias {
+		// the repo re-exports the Google messages through aliases
+		if al.Obj().Pkg() != nil && isProtoPkg(al.Obj().Pkg().Path()) {
+			_, isStruct := al.Underlying().(*types.Struct)
+			return isStruct
+		}
+		el = types.Unalias(el)
+	}
+	n, ok := el.(*types.Named)
+	if !ok || n.Obj().Pkg() == nil {
+		return false
+	}
+	if _, isStruct := n.Underlying().(*types.Struct); !isStruct {
+		return false
+	}
+	return isProtoPkg(n.Obj().Pkg().Path())
 }
 
 func isProtoPkg(p string) bool {
